@@ -1,0 +1,26 @@
+//! Child module of `persistence/mod.rs` (feature `verif`): the JSON flush / load entry points.
+
+use crate::{
+    Config, Worterbuch, persistence::error::PersistenceResult, server::CloneableWbApi,
+};
+use tosub::SubsystemHandle;
+
+pub async fn json_synchronous(
+    worterbuch: &mut Worterbuch,
+    config: &Config,
+) -> PersistenceResult<()> {
+    super::json::synchronous(worterbuch, config).await
+}
+
+pub async fn json_load(config: &Config) -> PersistenceResult<Worterbuch> {
+    super::json::load(config).await
+}
+
+/// The periodic flush task (export through the API, then write).
+pub async fn json_periodic(
+    api: CloneableWbApi,
+    config: Config,
+    subsys: SubsystemHandle,
+) -> PersistenceResult<()> {
+    super::json::periodic(api, config, subsys).await
+}
